@@ -11,6 +11,7 @@
   `+=` on u64 / i64 panics on overflow in the checked build: recorded in `State.ovf` → `Outcome.panic`.
 -/
 import IQE.Engine.SplitKey
+import IQE.Core.StableSort
 namespace IQE.Engine.Lpt
 open IQE.Engine
 
@@ -22,8 +23,9 @@ def lptLe (a b : Split × Nat) : Bool := (lptCmp a.1 b.1).isLE
 
 def keyLeIdx (a b : Split × Nat) : Bool := (Split.keyCmp a.1 b.1).isLE
 
-/-- The processing order: splits paired with their index, stable merge sort (Rust `sort_by` is stable). -/
-def order (splits : List Split) : List (Split × Nat) := splits.zipIdx.mergeSort lptLe
+/-- The processing order: splits paired with their index, stable sort (Rust `sort_by` is stable; the structural
+    `StableSort.sort` equals `List.mergeSort`, see IQE.StableSort.sort_eq_mergeSort). -/
+def order (splits : List Split) : List (Split × Nat) := IQE.StableSort.sort lptLe splits.zipIdx
 
 /-- `best = 0; for n in 1..nodes { if node_bytes[n] < node_bytes[best] { best = n } }` -/
 def argminGo : List Nat → Nat → Nat → Nat → Nat
@@ -66,7 +68,7 @@ structure Assignment where
 deriving Repr, DecidableEq
 
 /-- per-node canonical sort (`sort_by_key(canonical_key)`, stable) and projection to indices -/
-def sortOwned (l : List (Split × Nat)) : List Nat := (l.mergeSort keyLeIdx).map (·.2)
+def sortOwned (l : List (Split × Nat)) : List Nat := (IQE.StableSort.sort keyLeIdx l).map (·.2)
 
 def finish (st : State) (nodes totalBytes : Nat) : Assignment :=
   let per := st.perNode.map sortOwned
